@@ -6,6 +6,7 @@ import (
 	"fmt"
 	"reflect"
 	"strings"
+	"sync/atomic"
 	"time"
 )
 
@@ -647,10 +648,44 @@ func (o *ORM) Transaction(ctx context.Context, fn func(context.Context) error) e
 	if !ok {
 		return fmt.Errorf("transaction not supported for this database driver")
 	}
+	// A call made inside another Transaction's callback is part of that
+	// transaction: it runs between a savepoint and its release, so that its
+	// work is undone when it fails - and when the outer transaction fails.
+	// (Beginning a second, independent transaction committed the inner work
+	// for good, and blocked on the connection the outer one holds.)
+	if outer := txFromContext(ctx); outer != nil {
+		return nestedTransaction(ctx, outer, fn)
+	}
 	return pgDB.Transaction(ctx, func(tx *sql.Tx) error {
 		txCtx := context.WithValue(ctx, txContextKey{}, tx)
 		return fn(txCtx)
 	})
+}
+
+// savepointSeq numbers the savepoints of nested transactions.
+var savepointSeq uint64
+
+// nestedTransaction runs fn between SAVEPOINT and RELEASE on the transaction
+// already in progress; an error or a panic rolls back to the savepoint.
+func nestedTransaction(ctx context.Context, outer *sql.Tx, fn func(context.Context) error) (err error) {
+	name := fmt.Sprintf("glyph_sp_%d", atomic.AddUint64(&savepointSeq, 1))
+	if _, err := outer.ExecContext(ctx, "SAVEPOINT "+name); err != nil {
+		return err
+	}
+	defer func() {
+		if r := recover(); r != nil {
+			_, _ = outer.ExecContext(ctx, "ROLLBACK TO SAVEPOINT "+name)
+			panic(r)
+		}
+	}()
+	if err := fn(ctx); err != nil {
+		if _, rbErr := outer.ExecContext(ctx, "ROLLBACK TO SAVEPOINT "+name); rbErr != nil {
+			return fmt.Errorf("tx error: %v, rollback error: %v", err, rbErr)
+		}
+		return err
+	}
+	_, err = outer.ExecContext(ctx, "RELEASE SAVEPOINT "+name)
+	return err
 }
 
 // Timestamp returns current timestamp
